@@ -1,9 +1,10 @@
 """C09 - call/N, once/1, findall/3, = and \\= agree with their standard definitions."""
-from lib import semcheck, progs
+from lib import semcheck, progs, progs_shapes
 from lib.semcheck import impl, model_expr, compare, oracle, describe, shrink, IMPORTS
 
 ID = 'C09'
-THEOREMS = ['C09_compiled_program_computes_reference', 'C09_builtin_extensional', 'C09_call_spec_compound', 'C09_call_spec_atom', 'C09_once_spec', 'C09_findall_spec', 'C09_findall_one_instance_per_answer', 'C09_findall_instances', 'C09_findall_at_most_once', 'C09_eq_spec', 'C09_neq_spec']
+THEOREMS = ['C09_compiled_program_computes_reference', 'C09_builtin_extensional', 'C09_call_spec_compound', 'C09_call_spec_atom', 'C09_once_spec', 'C09_findall_spec', 'C09_findall_one_instance_per_answer', 'C09_findall_instances', 'C09_findall_at_most_once', 'C09_findall_shares_caller_variables', 'C09_eq_spec', 'C09_condition_failure_discards_bindings', 'C09_after_failed_condition', 'C09_negation_discards_bindings',
+            'C09_branch_failure_discards_bindings', 'C09_neq_spec']
 CASE_TIMEOUT = 60
 MODEL_NEEDS_IMPL = True
 COQ_CHUNK = 20
@@ -11,8 +12,77 @@ RULE = ('random programs whose bodies use call/1..N (extra arguments), once/1, f
         'through one or two bound variables, atoms or compound goals, with 0/1/many solutions, as first/middle/last goal, under \\+ and inside '
         'if-then-else, with templates that share variables with the goal and repeated variables in \\= ; compared as C01 (the builtins are part '
         'of both Coq semantics). Non-trivial: a builtin is called with a goal that arrives through a variable or has extra arguments or has no '
-        'solution, and some query has an answer.')
+        'solution, and some query has an answer. Plus program shapes of lib/progs_shapes.py: clause-local variables that occur first in an = goal '
+        '(either side) inside a condition / negation / disjunction branch / once / call / findall, followed there by a goal that may fail, and '
+        'used again in the else branch or after the construct (all locals exported through the head); findall/3 with a closed or partial '
+        'list as bag that shares variables with the goal, the template or an instance.')
 TRUSTED_BASE = []
+
+N_FIRST = {'quick': 40, 'thorough': 400}
+N_BAG = {'quick': 30, 'thorough': 300}
+
+def impl(case):
+    io = semcheck.impl(case)
+    if isinstance(io, dict) and 'queries' in io and 'findall' in semcheck.source_of(case):
+        # see lib/findall_diag.py: does some collected instance contain an unbound variable of the caller?
+        from lib import findall_diag
+        try:
+            for iq, f in zip(io['queries'], findall_diag.outer_flags(case)):
+                iq['findall_outer'] = f
+        except Exception:
+            pass
+    return io
+
+SLD_MSG = 'compiled-code model and SLD reference differ'
+HIGH_RECURSION_LIMIT = 30000
+
+def _impl_high_limit(case):
+    import sys
+    lim = sys.getrecursionlimit()
+    try:
+        sys.setrecursionlimit(HIGH_RECURSION_LIMIT)
+        return semcheck.impl(case)
+    finally:
+        sys.setrecursionlimit(lim)
+
+def rerun_with_high_recursion_limit(case):
+    """the engine walks a list recursively (get_value, unify), so a findall/3 result of about a thousand instances hits CPython's
+    default recursion limit - a resource limit of the host that the model does not have.  A query that ended by RecursionError
+    although the model finishes is run once more, in a process of its own, with a 30x limit before the difference is believed;
+    an unbounded recursion still ends by RecursionError there."""
+    import multiprocessing, concurrent.futures as cf
+    try:
+        with cf.ProcessPoolExecutor(1, mp_context=multiprocessing.get_context('fork')) as ex:
+            return ex.submit(_impl_high_limit, case).result(timeout=120)
+    except Exception:
+        return None
+
+def compare(case, io, mo):
+    """semcheck.compare, query by query; a difference between the two Coq semantics (compiled-code model vs the auxiliary SLD
+    reference - the implementation has already been found equal to the compiled-code model at that point) is not reported for a
+    query in which findall/3 collected an instance that contains an unbound variable of the caller (lib/findall_diag.py)"""
+    if not (isinstance(io, dict) and 'queries' in io and isinstance(mo, list) and not (mo and mo[0] == 'front-rejects')):
+        return semcheck.compare(case, io, mo)
+    idx = semcheck.compared_queries(case, io)
+    for k, qi in enumerate(idx):
+        if k >= len(mo):
+            break
+        iq = io['queries'][qi]
+        sub = dict(case, queries=[case['queries'][qi]])
+        r = semcheck.compare(sub, {'queries': [iq]}, [mo[k]])
+        if r and 'raised RecursionError' in r and 'the model finishes normally' in r:
+            io2 = rerun_with_high_recursion_limit(sub)
+            if isinstance(io2, dict) and 'queries' in io2 and io2['queries'][0]['end'] != 'raised RecursionError':
+                iq2 = dict(io2['queries'][0], findall_outer=iq.get('findall_outer'))
+                if iq2['end'] in ('cap', 'budget'):
+                    continue            # the search is too long to be compared with the eagerly evaluated model
+                iq = iq2
+                r = semcheck.compare(sub, {'queries': [iq]}, [mo[k]])
+        if r and SLD_MSG in r and iq.get('findall_outer'):
+            continue
+        if r:
+            return r
+    return None
 
 def gen(rng, tier):
     n = 240 if tier == 'quick' else 5000
@@ -21,6 +91,12 @@ def gen(rng, tier):
         o = progs.Opts(open_leaves=0.5 if rng.random() < 0.6 else 0.0, control=rng.random() < 0.5, cut=rng.random() < 0.2, opaque_cut=False, builtins=True)
         p = progs.gen_program(rng, o)
         cases.append({'clauses': p['clauses'], 'queries': p['queries']})
+    # clause-local variables that occur first in an = goal inside a scope whose bindings must be undone (lib/progs_shapes.py)
+    for _ in range(N_FIRST[tier]):
+        cases.append(progs_shapes.gen_first_binding_program(rng))
+    # findall/3 whose bag is already (partly) instantiated and shares variables with the goal / the instances
+    for _ in range(N_BAG[tier]):
+        cases.append(progs_shapes.gen_findall_bag_program(rng))
     return cases
 
 def builtin_corpus():
@@ -52,4 +128,12 @@ def nontrivial(case, io):
     return bool(cs & {'call:call', 'call:once', 'call:findall'})
 
 def distribution(cases, obs):
-    return semcheck.stats(cases, obs)
+    d = semcheck.stats(cases, obs)
+    shapes = {}
+    for c in cases:
+        k = c.get('shape', 'layered')
+        shapes[k] = shapes.get(k, 0) + 1
+    d['program_shapes'] = shapes
+    d['queries_where_findall_collected_an_unbound_variable_of_the_caller'] = sum(
+        1 for o in obs if isinstance(o, dict) and 'queries' in o for q in o['queries'] if q.get('findall_outer'))
+    return d
